@@ -16,7 +16,8 @@ private def parseCloseEv (b : Bytes) : Option CloseEv :=
   match b with
   | 83 :: r => (natOfDec? r).map .set          -- 'S'
   | [67] => some .compress                      -- 'C'
-  | [68] => some .detachClose                   -- 'D'
+  | [68] => some (.detachClose false)           -- 'D'
+  | [68, 33] => some (.detachClose true)        -- 'D!' the Close call returned an error
   | [80] => some .panicWrite                    -- 'P'
   | [78] => some .noop                          -- 'N'
   | 87 :: r => (natOfDec? r).map .writerFinish  -- 'W'
